@@ -45,7 +45,9 @@ def run(ctx) -> None:
             if isinstance(c.func, ast.Attribute) and c.func.attr in ("run", "map") and "runner" in src(c.func.value):
                 a0 = c.args[0] if c.args else None
                 a1 = c.args[1] if len(c.args) > 1 else None
-                ok = a0 is not None and src(a0) in ("node.graph", "node._graph", "node.nested_graph") and isinstance(a1, ast.Name) and a1.id not in ("state", "inputs")
+                # the second argument is a local (or an expression) that does not mention the executor's own 'state' / 'inputs' parameters
+                a1_ok = a1 is not None and not any(isinstance(x, ast.Name) and x.id in ("state", "inputs") for x in ast.walk(a1))
+                ok = a0 is not None and src(a0) in ("node.graph", "node._graph", "node.nested_graph") and a1_ok
                 rep.add("C05.R2", f"{f.qname}:{c.func.attr}-args", ok, f"{f.module.rel}:{c.lineno}", "nested call runs the wrapper's own graph on the translated inputs" if ok else f"nested call receives '{src(a1) if a1 is not None else '?'}' (untranslated inputs or outer state) or not the wrapper's graph")
 
     gn = db.cls("nodes.graph_node.GraphNode")
@@ -79,6 +81,12 @@ def run(ctx) -> None:
     from .c01 import check_readiness_vs_resolver
 
     check_readiness_vs_resolver(ctx, "C05.R5")
+    # a nested graph receives exactly the values addressed to its inputs: nothing the resolver finds for it (edge,
+    # provided, bound — also a binding surfaced from a sibling) is withheld; only what the resolver itself classifies as
+    # the inner graph's own signature default is left to the nested run
+    from .c18 import check_skip_by_resolver_class
+
+    check_skip_by_resolver_class(ctx, "C05.R2")
 
     for name in ("has_default_for", "get_default_for"):
         m = gn.methods.get(name)
